@@ -462,5 +462,5 @@ def bounds(tier):
 LEVEL_TEXT = ("bounded symbolic model checking of the real stream front ends + Config/ContextConfig/Call: row times, window bounds, "
               "index labels and data are symbolic; z3 proves subset_indexes <=> starting<=t<ending, that the arrays handed to a probe "
               "test and recorded in each ContextResult are exactly the window rows in order, and that flags equal the direct call")
-LEVEL_NOTE = "bounds: rows<=2/4, contexts<=2; pandas/xarray are environment models validated by per-path witnesses on the real stack"
+LEVEL_NOTE = "bounds: rows<=2(3)/4, contexts<=2; pandas/xarray are environment models validated by per-path witnesses on the real stack"
 TECHNIQUE = "symbolic execution of the real Python source over modelled numpy/pandas/xarray + z3"
